@@ -153,7 +153,7 @@ func lsGitSuffixed(root int, p string) bool {
 	return strings.HasSuffix(p, ".git")
 }
 
-func lsGenMut(g kit.G, m *lsGenModel, def []int) lsMut {
+func lsGenMut(g kit.G, m *lsGenModel, def []int, later bool) lsMut {
 	pickRoot := func(label string) int {
 		if g.Bool(78, label+"-def") {
 			return kit.Pick(g, def, label)
@@ -161,7 +161,17 @@ func lsGenMut(g kit.G, m *lsGenModel, def []int) lsMut {
 		return g.Int(0, len(lsRootPool)-1, label)
 	}
 	op := "add"
-	if len(m.repos) > 0 {
+	if len(m.repos) > 0 && later {
+		// after the first command: mostly changes to what is (probably) indexed
+		op = kit.Pick(g, []string{
+			"add", "add", "add",
+			"move", "move", "move", "move", "move", "move",
+			"update", "update", "update",
+			"del", "del",
+			"cfg",
+			"shard",
+		}, "op-later")
+	} else if len(m.repos) > 0 {
 		op = kit.Pick(g, []string{
 			"add", "add", "add", "add", "add", "add",
 			"move", "move", "move", "move", "move",
@@ -365,7 +375,7 @@ func lsGen(rt *rapid.T) lsCase {
 			nm = g.Int(2, 6, "nmuts0")
 		}
 		for j := 0; j < nm; j++ {
-			st.Muts = append(st.Muts, lsGenMut(g, m, defIdx))
+			st.Muts = append(st.Muts, lsGenMut(g, m, defIdx, s > 0))
 		}
 		st.Cmd = lsGenCmd(g, m, def, s, nsteps)
 		st.Apply = g.Bool(72, "apply")
